@@ -61,7 +61,7 @@ func (sc scenario) options() *neat.Options {
 	return o
 }
 
-var fitnessNames = []string{"zero", "constant", "linear", "heavy-tailed", "dominant", "stagnating", "distinct-random", "structure"}
+var fitnessNames = []string{"zero", "constant", "linear", "heavy-tailed", "dominant", "stagnating", "distinct-random", "structure", "tiny"}
 
 func preset(k, popSize int) *neat.Options {
 	o := vhu.BaseOptions(popSize)
@@ -187,6 +187,8 @@ func assignFitness(pop *genetics.Population, family int, frng *rand.Rand, gen in
 			o.Fitness = 1.0 + 0.001*float64(i)
 		case 6:
 			o.Fitness = 0.1 + 10*frng.Float64()
+		case 8: // distinct positive but tiny values (far below any fixed floor)
+			o.Fitness = 1e-7 * (1 + frng.Float64()) * float64(1+(i*7)%n)
 		default:
 			en := 0
 			for _, g := range o.Genotype.Genes {
